@@ -160,6 +160,40 @@ def concat_target_cases(ok_scripts):
             ok_scripts.append(((kind, len(lb), "concat-assign", tname, len(rb)), "\n".join(body) + "\n", "".join(exp)))
 
 
+def self_referential_cases(ok_scripts):
+    """index and range targets, bounds and right-hand sides that read the very list being updated: a destructuring assignment
+    takes the items of the (live) right-hand side one by one, left to right; bounds are evaluated before the update"""
+    import itertools as it
+    for n in (2, 3):
+        xs = [10 * (i + 1) for i in range(n)]
+        for perm in it.permutations(range(n)):
+            live = list(xs)
+            for k, idx in enumerate(perm):
+                live[idx] = live[k]
+            tg = ", ".join(f"ys[{i}]" for i in perm)
+            ok_scripts.append((("list", n, "destructure-into-self", perm), f"ys := {lit_list(xs)}\n[{tg}] = ys\nprint(ys)\n", render_list(live)))
+            fresh = list(xs)
+            vals = list(xs)
+            for k, idx in enumerate(perm):
+                fresh[idx] = vals[k]
+            ok_scripts.append((("list", n, "destructure-into-self-copy", perm), f"ys := {lit_list(xs)}\n[{tg}] = ys[:]\nprint(ys)\n", render_list(fresh)))
+    ln = "fn len(l) {\n    n := 0\n    for [i, v] in l {\n        n += 1\n    }\n    return n\n}\n"
+    cases = [
+        ("xs := [2, 0, 0, 0]\nxs[1:xs[0] + 1] = [5, 6]\nprint(xs)\n", [2, 5, 6, 0]),
+        ("xs := [1, 0, 0]\nxs[xs[0]:] = [8, 9]\nprint(xs)\n", [1, 8, 9]),
+        (ln + "xs := [1, 2, 3, 4]\nxs[2:len(xs)] = [7, 8]\nprint(xs)\n", [1, 2, 7, 8]),
+        (ln + "xs := [1, 2, 3, 4]\nxs[len(xs) - 1] = 9\nprint(xs)\n", [1, 2, 3, 9]),
+        ("xs := [1, 2, 3]\nxs[xs[0]] = xs[2]\nprint(xs)\n", [1, 3, 3]),
+        ("xs := [0, 1, 2, 3]\nxs[0:2] = xs[2:4]\nprint(xs)\n", [2, 3, 2, 3]),
+        ("xs := [0, 1, 2, 3]\nxs[0:4] = xs\nprint(xs)\n", [0, 1, 2, 3]),
+        ("xs := [1, 2]\nxs[xs[0]] += xs[0]\nprint(xs)\n", [1, 3]),
+        ("xs := [3, 1, 2]\n[xs[0], xs[1]] = [xs[1], xs[0]]\nprint(xs)\n", [1, 3, 2]),
+        ("xs := [[1], [2]]\nxs[0][0:1] = xs[1]\nprint(xs[0])\n", [2]),
+    ]
+    for i, (src, exp) in enumerate(cases):
+        ok_scripts.append((("list", len(exp), "self-referential", i), src, render_list(exp)))
+
+
 def cases_for_str(chars, ok_scripts, fail_scripts):
     s = "".join(chars)
     bs = s.encode("utf-8")
@@ -238,6 +272,7 @@ def run(ctx, model_ok):
     multibyte_rset_cases(ok_scripts, fail_scripts)
     concat_fresh_cases(ok_scripts)
     concat_target_cases(ok_scripts)
+    self_referential_cases(ok_scripts)
     ctx.cov["exhaustive"] = True
     for label, cs, must_fail in (("succeeding", ok_scripts, False), ("failing", fail_scripts, True)):
         srcs = [c[1] for c in cs]
